@@ -339,7 +339,8 @@ def table_integer(value: int) -> bytes:
         return b'i' + long_uint(value)
     elif -9223372036854775808 <= value <= 9223372036854775807:
         return b'l' + long_long_int(value)
-    raise TypeError('Unsupported numeric value: {}'.format(value))
+    raise TypeError('Unsupported numeric value: outside the range of a '
+                    'signed 64-bit integer')
 
 
 def _deprecated_table_integer(value: int) -> bytes:
@@ -359,7 +360,8 @@ def _deprecated_table_integer(value: int) -> bytes:
         return b'I' + long_int(value)
     elif -9223372036854775808 <= value <= 9223372036854775807:
         return b'l' + long_long_int(value)
-    raise TypeError('Unsupported numeric value: {}'.format(value))
+    raise TypeError('Unsupported numeric value: outside the range of a '
+                    'signed 64-bit integer')
 
 
 def _string(encoder: struct.Struct, value: str) -> bytes:
